@@ -829,7 +829,7 @@ def make_data_dict_vcf(vcf_filename, popinfo_filename, subsample=None, filter=Tr
         # Read SNP data
         # Data lines in VCF file are tab-delimited
         # See https://samtools.github.io/hts-specs/VCFv4.2.pdf
-        cols = line.split("\t")
+        cols = line.rstrip('\r\n').split("\t")
         snp_id = '_'.join(cols[:2]) # CHROM_POS
         snp_dict = {}
         
